@@ -9,7 +9,7 @@ MODEL = "C04"
 PROP_FILES = ["Props/C04.v"]
 RULE = ("handler outcome (27 return values: None/False/0/negative/>255/bool/numeric and non-numeric strings incl. '2.7', '1e2', "
         "'1_0'/floats incl. nan, inf, -0.5/sequences/objects; exceptions: RuntimeError, ValueError, library error, KeyboardInterrupt, exceptions with a 'code' "
-        "attribute, chained causes (explicit and implicit), OSError, SyntaxError, a sixty-frame traceback, 10 messages incl. multi-line, non-ASCII, opening/closing/unbalanced style tags, raised from a "
+        "attribute, chained causes (explicit and implicit), OSError, SyntaxError, a sixty-frame traceback, an exception whose __str__ raises, 10 messages incl. multi-line, non-ASCII, opening/closing/unbalanced style tags, raised from a "
         "source file, from exec'd source-less code, from a file containing markup) x verbosity {normal,-v,-vv,-vvv} x 8 pre-handle "
         "listener set-ups (pass / handle / handle+stop / fail) x exception catching on; x 16 command lines of a "
         "DefaultApplicationConfig application 'go [target] [--num INT] [-f]' with sub-command 'go deep [extra]' and a second command "
@@ -26,8 +26,8 @@ ASSUMPTIONS = ["SystemExit / GeneratorExit are outside the quantifier; KeyboardI
                "'printed error report' is demanded of the runs whose io is not quiet; a failing io factory is reported on the "
                "preliminary io, which no switch silences",
                "lines carrying a help or version switch are C09's; the lines here have none",
-               "terminate_after_run is off (with it on, run() ends in sys.exit(status) by design); an exception whose __str__ itself "
-               "raises has no message to report and is outside the quantifier; non-ASCII decimal digits in a returned string "
+               "terminate_after_run is off (with it on, run() ends in sys.exit(status) by design); of an exception whose __str__ itself "
+               "raises only the report is demanded, not a message in it; non-ASCII decimal digits in a returned string "
                "(int() accepts them, Model/Conv.v int_of_str does not) are not generated"]
 
 RETS = [None, False, 0, -3, 300, True, "12", " 7 ", "abc", "", 2.7, 0.3, 0.0, "nan", "inf", [], [0], "OBJ", 255, 256, 1, -1, "0", "-0",
@@ -35,7 +35,7 @@ RETS = [None, False, 0, -3, 300, True, "12", " 7 ", "abc", "", 2.7, 0.3, 0.0, "n
 MSGS = ["boom", "two\nlines", "naïve é λ", "<error>open", "close</error>", "</b>", "<b>bold</b> and <c1>x</c1>", "a < b > c",
         "trailing backslash \\", "<fg=red>x</>"]
 EXCS = ["RuntimeError", "ValueError", "Lib", "KeyboardInterrupt", "CodeInt", "CodeNone", "CodeStr", "Chained", "TypeError", "AttributeError",
-        "Context", "OSError", "SyntaxError", "Deep"]
+        "Context", "OSError", "SyntaxError", "Deep", "BadStr"]
 ORIGINS = ["file", "exec", "markupfile"]
 LISTENERS = [[], [[0]], [[1, 0, 0]], [[1, 5, 1]], [[2, "RuntimeError"]], [[0], [1, "abc", 0]], [[1, None, 0], [0]], [[2, "Lib"]],
              [[2, "KeyboardInterrupt"]]]
@@ -233,6 +233,12 @@ def _mk_exc(name, msg):
                 raise RuntimeError(msg)
         except RuntimeError as e:
             return e
+    if name == "BadStr":
+        # an exception whose __str__ raises: there is no message to show, the report must appear all the same (fix 4e70bc4)
+        class BadStr(Exception):
+            def __str__(self):
+                raise RuntimeError("no message")
+        return BadStr(msg)
     if name == "OSError":
         return OSError(2, msg, "/no/such <b>file")
     if name == "SyntaxError":
@@ -484,7 +490,7 @@ def oracle(c, o):
             if out[1] != "KeyboardInterrupt" and not quiet:
                 if not printed:
                     return "exception-without-error-report"
-                if not _shows(text, MSGS[out[2]]):
+                if out[1] != "BadStr" and not _shows(text, MSGS[out[2]]):
                     return "error-report-without-the-message"
     else:
         if calls:
